@@ -38,7 +38,7 @@ THREAD_REPLICA = False   # this monitor uses a process-wide sys.monitoring probe
 
 def shards(tier):
     nh = 10 if tier == 'quick' else 32
-    nt = 10 if tier == 'quick' else 32
+    nt = 8 if tier == 'quick' else 32
     return ([{'name': 'hist%02d' % i, 'kind': 'hist', 'part': i, 'parts': nh} for i in range(nh)] +
             [{'name': 'thread%02d' % i, 'kind': 'thread', 'part': i} for i in range(nt)])
 
